@@ -170,3 +170,197 @@ pub fn gen13(r: &mut Rng, n: usize) -> Vec<String> {
     }
     out
 }
+
+// ---------------------------------------------------------------------------------------------
+// C14: choking policy histories on the real Session.
+
+fn snap14(s: &mut Session) -> String {
+    let mut v: Vec<(usize, String)> = s
+        .verif_peers()
+        .iter()
+        .map(|(addr, p)| {
+            let k: usize = addr.split(':').next().unwrap().rsplit('.').next().unwrap().parse::<usize>().unwrap() - 1;
+            (
+                k,
+                format!(
+                    "{}{}{}{}",
+                    k,
+                    if p.am_choked { 'c' } else { 'u' },
+                    if p.interested { 'i' } else { 'n' },
+                    if p.optimistic_unchoke { 'o' } else { '-' }
+                ),
+            )
+        })
+        .collect();
+    v.sort();
+    if v.is_empty() {
+        "-".into()
+    } else {
+        v.into_iter().map(|x| x.1).collect::<Vec<_>>().join(",")
+    }
+}
+
+fn idx_of(addr: &str) -> usize {
+    addr.split(':').next().unwrap().rsplit('.').next().unwrap().parse::<usize>().unwrap() - 1
+}
+
+/// `hist <ops ';'-separated>`; ops: a<k> b<k> i<k> n<k> k<k> r<k=rate,...>/<newopt k,…|->
+fn op_hist14(ops: &str) -> String {
+    let r = catch(|| {
+        rt().block_on(async {
+            let mut s = Session::new(metainfo(4, 16384, 16384), own_id());
+            let mut out: Vec<String> = vec![];
+            for op in ops.split(';') {
+                let (c, rest) = op.split_at(1);
+                let mut pre = String::new();
+                match c {
+                    "a" => s.verif_add_peer(addr_of(rest.parse().unwrap()), None),
+                    "b" => {
+                        let (tx, rx) = tokio::sync::oneshot::channel();
+                        let cmd = PeerCmd::RecvBitfield {
+                            addr: addr_of(rest.parse().unwrap()),
+                            bitfield: Bitfield::from_vec(&vec![true, false, true, false]),
+                            resp_ch: tx,
+                        };
+                        match s.verif_handle_peer_cmd(cmd).await {
+                            Ok(_) => match rx.await {
+                                Ok(BitfieldCmd::SendState { with_am_unchoked, .. }) => {
+                                    pre = format!("B[{}]", if with_am_unchoked { 'u' } else { '-' })
+                                }
+                                Err(_) => pre = "B[noresp]".into(),
+                            },
+                            Err(_) => pre = "B[err]".into(),
+                        }
+                    }
+                    "i" => {
+                        let cmd = PeerCmd::RecvInterested { addr: addr_of(rest.parse().unwrap()) };
+                        if s.verif_handle_peer_cmd(cmd).await.is_err() {
+                            pre = "E".into()
+                        }
+                    }
+                    "n" => {
+                        let (tx, _rx) = tokio::sync::oneshot::channel();
+                        let cmd = PeerCmd::RecvNotInterested { addr: addr_of(rest.parse().unwrap()), resp_ch: tx };
+                        if s.verif_handle_peer_cmd(cmd).await.is_err() {
+                            pre = "E".into()
+                        }
+                    }
+                    "k" => s.verif_kill_peer(&addr_of(rest.parse().unwrap())).await,
+                    "r" => {
+                        let (rates_s, opt_s) = rest.split_once('/').unwrap();
+                        let mut rates: Vec<(String, u32)> = if rates_s.is_empty() {
+                            vec![]
+                        } else {
+                            rates_s
+                                .split(',')
+                                .map(|kv| {
+                                    let (k, v) = kv.split_once('=').unwrap();
+                                    (addr_of(k.parse().unwrap()), v.parse().unwrap())
+                                })
+                                .collect()
+                        };
+                        let new_opt: Vec<String> = if opt_s == "-" {
+                            vec![]
+                        } else {
+                            opt_s.split(',').map(|k| addr_of(k.parse().unwrap())).collect()
+                        };
+                        match s.verif_rotate(&mut rates, &new_opt) {
+                            Ok(map) => {
+                                let order: Vec<String> = rates.iter().map(|(a, _)| idx_of(a).to_string()).collect();
+                                let mut m: Vec<(usize, bool)> = map.iter().map(|(a, b)| (idx_of(a), *b)).collect();
+                                m.sort();
+                                pre = format!(
+                                    "R[{}][{}]",
+                                    order.join("."),
+                                    m.iter().map(|(k, b)| format!("{}:{}", k, if *b { 'c' } else { 'u' })).collect::<Vec<_>>().join(".")
+                                );
+                            }
+                            Err(_) => pre = "R[err]".into(),
+                        }
+                    }
+                    _ => panic!("bad C14 op"),
+                }
+                out.push(format!("{}{}", pre, snap14(&mut s)));
+            }
+            out.join(";")
+        })
+    });
+    r.unwrap_or_else(|_| "P".into())
+}
+
+pub fn run14(args: &[&str]) -> String {
+    match args[0] {
+        "hist" => op_hist14(args[1]),
+        _ => panic!("unknown C14 op"),
+    }
+}
+
+pub fn gen14(r: &mut Rng, n: usize) -> Vec<String> {
+    let mut out = vec![];
+    for _ in 0..n {
+        let max_peers = match r.below(3) {
+            0 => 1 + r.below(6) as usize,
+            1 => 9 + r.below(5) as usize,
+            _ => 1 + r.below(25) as usize,
+        };
+        // shadow state to generate admissible new_optimistic choices: (present, am_choked?, interested) is not
+        // tracked exactly (the implementation decides am_choked); we re-run the prefix to read the snapshot.
+        let steps = 5 + r.below(36) as usize;
+        let mut ops: Vec<String> = vec![];
+        let mut present: Vec<usize> = vec![];
+        for _ in 0..steps {
+            let roll = r.below(100);
+            if present.is_empty() || (roll < 30 && present.len() < max_peers) {
+                let k = loop {
+                    let k = r.below(max_peers as u64 + 2) as usize;
+                    if !present.contains(&k) {
+                        break k;
+                    }
+                };
+                present.push(k);
+                ops.push(format!("a{}", k));
+                // a fresh connection normally sends its bitfield and often interest right away
+                if r.chance(3, 4) {
+                    ops.push(format!("i{}", k));
+                }
+                if r.chance(3, 4) {
+                    ops.push(format!("b{}", k));
+                }
+            } else if roll < 45 {
+                ops.push(format!("i{}", r.pick(&present)));
+            } else if roll < 55 {
+                ops.push(format!("n{}", r.pick(&present)));
+            } else if roll < 65 {
+                ops.push(format!("b{}", r.pick(&present)));
+            } else if roll < 72 {
+                let i = r.below(present.len() as u64) as usize;
+                ops.push(format!("k{}", present.remove(i)));
+            } else {
+                // rotation: rates with ties, in random vector order; new_optimistic chosen from the snapshot
+                let snap = op_hist14(&ops.join(";"));
+                let last = snap.rsplit(';').next().unwrap_or("-").to_string();
+                let last = last.rsplit(']').next().unwrap().to_string();
+                let cands: Vec<usize> = last
+                    .split(',')
+                    .filter(|t| t.len() >= 4 && t.contains('c') && t.contains('i') && !t.starts_with('-'))
+                    .filter_map(|t| {
+                        let digits: String = t.chars().take_while(|c| c.is_ascii_digit()).collect();
+                        let flags: String = t.chars().skip_while(|c| c.is_ascii_digit()).collect();
+                        if flags.starts_with("ci") { digits.parse().ok() } else { None }
+                    })
+                    .collect();
+                let mut ps = present.clone();
+                r.shuffle(&mut ps);
+                let tie_base = r.below(5) as u32;
+                let rates: Vec<String> = ps
+                    .iter()
+                    .map(|k| format!("{}={}", k, if r.chance(1, 3) { tie_base } else { r.below(8) as u32 }))
+                    .collect();
+                let opt = if !cands.is_empty() && r.chance(1, 2) { r.pick(&cands).to_string() } else { "-".to_string() };
+                ops.push(format!("r{}/{}", rates.join(","), opt));
+            }
+        }
+        out.push(format!("hist {}", ops.join(";")));
+    }
+    out
+}
